@@ -68,7 +68,119 @@ class StructDS(Dataset):
             return torch.full((4,), float(i), dtype=torch.float64), i % 2
         if self.kind == 'triple':
             return torch.zeros(2, dtype=torch.int64), torch.ones(1, 1, dtype=torch.float32), float(i)
+        if self.kind == 'bare':            # the element is one tensor, not a tuple
+            return torch.full((2, 3), float(i))
+        if self.kind == 'dict':
+            return {'x': torch.full((2, 3), float(i)), 'y': i % 3}
+        if self.kind == 'nested':
+            return torch.full((2,), float(i)), (torch.tensor([i]), float(i))
+        if self.kind == 'numpy':
+            import numpy as np
+            return np.full((2, 2), float(i), dtype=np.float32), i
+        if self.kind == 'strings':
+            return torch.full((2,), float(i)), 'sample-%d' % i
         return (torch.full((5,), float(i)),)
+
+
+def describe(b, batch_dim=True):
+    """structure of a collated batch with the batch extent removed"""
+    if torch.is_tensor(b):
+        return ['T', list(b.shape[1:]), str(b.dtype)]
+    if isinstance(b, dict):
+        return {k: describe(v) for k, v in sorted(b.items())}
+    if isinstance(b, (list, tuple)):
+        if all(isinstance(v, (str, bytes)) for v in b):
+            return ['S']
+        return [describe(v) for v in b]
+    return type(b).__name__
+
+
+def batch_len(b):
+    if torch.is_tensor(b):
+        return b.shape[0]
+    if isinstance(b, dict):
+        return batch_len(next(iter(b.values())))
+    if isinstance(b, (list, tuple)):
+        if all(isinstance(v, (str, bytes)) for v in b):
+            return len(b)
+        return batch_len(b[0])
+    return None
+
+
+def struct_case(c):
+    """the empty batch must have the structure, trailing shapes and dtypes of a non-empty batch (compared through the loader's own collate function
+    and through iteration)"""
+    ds = StructDS(c['N'], c['kind'])
+    dl = DataLoader(ds, batch_size=c['bs'])
+    out = {'error': None, 'bad': None, 'empties': 0}
+    try:
+        dpl = DPDataLoader.from_data_loader(dl, generator=torch.Generator().manual_seed(c['seed']))
+        want = describe(dpl.collate_fn([ds[0], ds[1]]))
+        got = describe(dpl.collate_fn([]))
+        if got != want:
+            out['bad'] = 'collate of an empty batch has structure %s, a non-empty batch %s' % (got, want)
+        elif batch_len(dpl.collate_fn([])) != 0:
+            out['bad'] = 'collate of an empty batch has length %s' % batch_len(dpl.collate_fn([]))
+        nb = 0
+        for _ in range(3):
+            for batch in dpl:
+                nb += 1
+                if batch_len(batch) == 0:
+                    out['empties'] += 1
+                    if describe(batch) != want and not out['bad']:
+                        out['bad'] = 'an empty batch delivered by the loader has structure %s, a non-empty batch %s' % (describe(batch), want)
+        out['batches'] = nb
+        out['L'] = len(dl)
+    except Exception as e:
+        import traceback
+        out['error'] = errname(e) + ': ' + str(e)[:200] + ' @ ' + traceback.format_exc()[-400:]
+    return out
+
+
+DTYPES = [torch.float32, torch.float64, torch.int64, torch.int32, torch.bool, torch.float16]
+
+
+def build_tree(spec, n):
+    """python batch object from a JSON spec; n = batch extent"""
+    import collections
+    k = spec[0]
+    if k == 'T':
+        return torch.zeros([n] + spec[1], dtype=DTYPES[spec[2]])
+    if k == 'M':
+        return {key: build_tree(v, n) for key, v in spec[1]}
+    if k == 'Q':
+        items = [build_tree(v, n) for v in spec[2]]
+        if spec[1] == 0:
+            return items
+        if spec[1] == 1:
+            return tuple(items)
+        NT = collections.namedtuple('NT', ['f%d' % i for i in range(len(items))])
+        return NT(*items)
+    if k == 'S':
+        vals = ['s%d' % i for i in range(n)]
+        return vals if spec[1] == 0 else tuple(vals)
+    return {0: 7, 1: 2.5, 2: None}[spec[1]]
+
+
+def encode_tree(b):
+    """Coq term (Model/Batch.btree) of a python batch object"""
+    if torch.is_tensor(b):
+        return '(BTensor %d%%nat [%s] %d%%nat)' % (b.shape[0], '; '.join('%d%%nat' % d for d in b.shape[1:]), DTYPES.index(b.dtype))
+    if isinstance(b, dict):
+        return '(BMap [%s])' % '; '.join('("%s"%%string, %s)' % (k, encode_tree(v)) for k, v in b.items())
+    if isinstance(b, (list, tuple)):
+        tag = 0 if isinstance(b, list) else (2 if hasattr(b, '_fields') else 1)
+        # an empty plain list / tuple is the empty sequence of strings for the implementation (all() of nothing) -- same encoding on both sides
+        if all(isinstance(v, (str, bytes)) for v in b) and tag != 2:
+            return '(BStrs %d%%nat %d%%nat)' % (tag, len(b))
+        return '(BSeq %d%%nat [%s])' % (tag, '; '.join(encode_tree(v) for v in b))
+    return '(BLeaf %d%%nat)' % {int: 0, float: 1, type(None): 2}[type(b)]
+
+
+def tree_case(c):
+    from opacus.data_loader import empty_like_batch
+    b = build_tree(c['spec'], c['n'])
+    return {'input': encode_tree(b), 'output': encode_tree(empty_like_batch(b))}
 
 
 def loader_case(c):
@@ -135,4 +247,5 @@ def loader_case(c):
 if __name__ == '__main__':
     p = read_payload()
     emit({'uniform': [uniform_case(c) for c in p.get('uniform', [])], 'dist': [dist_case(c) for c in p.get('dist', [])],
-          'loader': [loader_case(c) for c in p.get('loader', [])]})
+          'loader': [loader_case(c) for c in p.get('loader', [])], 'struct': [struct_case(c) for c in p.get('struct', [])],
+          'tree': [tree_case(c) for c in p.get('tree', [])]})
